@@ -229,7 +229,6 @@ func genCasePool(c *Ctx, mode string) {
 	// justified by the local vote alone
 	nc := newNodeCase(c, mode, E, nVal, 0, 2)
 	defer nc.close()
-	nc.poolInit()
 	base := int(E) + 1 + int(consensus.CoinbasePendingBlockNumber) + rng.Intn(3)
 	tip := "b0"
 	for i := 0; i < base; i++ {
